@@ -1246,6 +1246,11 @@ static ares_status_t ares_uri_parse_hostport(ares_uri_t *uri, ares_buf_t *buf)
     return ARES_EBADSTR;
   }
 
+  /* port holds at most 5 digits, but 65536..99999 is no port */
+  if (atoi(port) > 65535) {
+    return ARES_EBADSTR;
+  }
+
   status = ares_uri_set_port(uri, (unsigned short)atoi(port));
   if (status != ARES_SUCCESS) {
     return status;
